@@ -89,7 +89,12 @@ def run(ctx, proofs_ok):
     for i, cmd in enumerate([("GEOADD", "g", "13.361389", "38.115556", "Palermo", "15.087269", "37.502669", "Catania"), ("GEOADD", "g", "2", "2", "Palermo"),
                              ("GEOADD", "g2", "200", "100", "Out"), ("ZADD", "g", "5", "plain"), ("GEOADD", "g", "-122.27652", "37.805186", "st1", "-122.2674626", "37.8062344", "st2"),
                              ("DEL", "g2"), ("GEOADD", "g2", "0", "0", "origin"), ("GEOADD", "str", "1", "1", "m"), ("SET", "str", "v"), ("GEOADD", "str", "1", "1", "m"),
-                             ("ZREM", "g", "Palermo"), ("GEOADD", "g", "13.361389", "38.115556", "Palermo")]):
+                             ("ZREM", "g", "Palermo"), ("GEOADD", "g", "13.361389", "38.115556", "Palermo"),
+                             # the ZADD command (zAddPairs, one transaction, one record per member written; Lean: C20.replay_zaddPairs)
+                             ("ZADD", "g", "GT", "CH", "1", "plain", "7", "plain2", "3", "Palermo"), ("ZADD", "zp", "NX", "1", "a", "2", "a", "3", "b"),
+                             ("ZADD", "zp", "XX", "CH", "5", "a", "6", "nothere"), ("ZADD", "zp", "LT", "0", "a", "9", "b", "4", "c"), ("ZADD", "zq", "XX", "1", "a"),
+                             ("ZADD", "zp", "1", "a", "x", "b"), ("ZADD", "zp", "GT", "CH", "2", "a", "2", "a", "1", "a", "8", "d"), ("ZADD", "zr", "LT", "1", "n", "2", "n", "0", "n"),
+                             ("ZADD", "zp", "-0", "z0", "0", "z0"), ("ZADD", "zp", "CH", "0", "z0", "5", "a")]):
         geo += [c(*cmd), "replicate b", "ldump", "inst b", "ldump", "inst a"]
     # (the model's side of GEOADD's records is tied at the API level: `api GeoAdd` in the zset family above - records
     # against `Feed.emission`, and the closed loop; here the command goes over the network protocol)
